@@ -110,6 +110,63 @@ def feedAll (c : Cfg) : Dec Unit → List Bytes → Dec Unit × List Event := St
 /-- decode a whole stream delivered in one piece to a fresh decoder -/
 def decode (c : Cfg) (stream : Bytes) : Dec Unit × List Event := feed c init stream
 
+/-! ### the message objects one `onMessage` call hands to its consumer
+
+`ProtobufCodecLite::onMessage` hands every decoded message to the message callback as a `shared_ptr`; a consumer may
+keep it (RpcCodec_test.cc does, a server that queues requests to a worker pool does).  Whether the pointers of one
+call are distinct objects - and therefore whether a message that was handed out STAYS that message while later frames
+of the same call are decoded - depends on where `prototype_->New()` sits relative to the loop:
+`Gen.Codec.allocPerFrame` (T1).  The heap below is what the consumer can observe of one call: which object each
+pointer it was handed refers to, and what that object holds when `onMessage` has returned.  It is a function of the
+events of the call (`feed c d chunk`).2: `.msg p` = a frame was parsed into the current object and the object handed
+out; `.err kParseError` = a frame was parsed into the current object and the parse failed (content unspecified, nothing
+handed out); every other error is reported before anything is parsed. -/
+
+/-- the heap of message objects during one `onMessage` call: `allocs` = number of `prototype_->New()` so far =
+identity of the next object; `cur` = the object the local `message` points to; `store` = content of the objects, latest
+write first (the payload last parsed into it, `none` after a failed parse); `handed` = the pointers given to the
+message callback, in order -/
+structure Heap where
+  allocs : Nat := 0
+  cur : Option Nat := none
+  store : List (Nat × Option Bytes) := []
+  handed : List Nat := []
+deriving Repr, DecidableEq
+
+/-- what object `o` holds now -/
+def Heap.content (h : Heap) (o : Nat) : Option Bytes :=
+  match h.store.find? (fun e => e.1 == o) with
+  | some e => e.2
+  | none => none
+
+/-- one frame reaches `parse`: the object it is parsed into is a new one (`perFrame`, or none exists yet: lazily
+allocated), else the object of the frame before; `content` is what the parse leaves in it; `deliver`: handed to the
+callback -/
+def Heap.parseFrame (perFrame : Bool) (h : Heap) (content : Option Bytes) (deliver : Bool) : Heap :=
+  { allocs := if perFrame || h.cur.isNone then h.allocs + 1 else h.allocs
+    cur := some (if perFrame then h.allocs else h.cur.getD h.allocs)
+    store := (if perFrame then h.allocs else h.cur.getD h.allocs, content) :: h.store
+    handed := if deliver then h.handed ++ [if perFrame then h.allocs else h.cur.getD h.allocs] else h.handed }
+
+/-- the heap after the events of one call -/
+def heapOf (perFrame : Bool) : Heap → List Event → Heap
+  | h, [] => h
+  | h, .msg p :: es => heapOf perFrame (h.parseFrame perFrame (some p) true) es
+  | h, .err e :: es => heapOf perFrame (if e = .kParseError then h.parseFrame perFrame none false else h) es
+
+/-- what the consumer holds after the call: for each pointer it was handed, the object and that object's content -/
+def Heap.held (h : Heap) : List (Nat × Option Bytes) := h.handed.map (fun o => (o, h.content o))
+
+/-- the retained messages after one `onMessage` call whose events were `evs`, under the allocation discipline of the
+current source -/
+def heldAfter (evs : List Event) : List (Nat × Option Bytes) := (heapOf allocPerFrame {} evs).held
+
+/-- the payloads delivered by the events, in order -/
+def delivered : List Event → List Bytes
+  | [] => []
+  | .msg p :: es => p :: delivered es
+  | .err _ :: es => delivered es
+
 end Lite
 
 /-! ### the example codec: length, nameLen, typeName (NUL-terminated), payload, checksum -/
